@@ -183,6 +183,12 @@ func (r *runner) randomStep(p profile, allowFault bool) {
 	if allowFault {
 		if !r.readFailed() {
 			add(1, func() { r.connerr(g.Bool()) })
+			add(1, func() { // the fault strikes in the middle of a frame (any byte offset)
+				fb := frameBytes(r.freeTag(), r.newRequestMsg(100000+len(r.steps)))
+				r.w.cn.feed(fb[:1+g.Intn(len(fb)-1)])
+				r.observe(sx.L(sx.Sym("nop")), "partial-frame-before-fault", nil)
+				r.connerr(g.Bool())
+			})
 		}
 		if r.w.ctx.Err() == nil {
 			add(1, r.ctxCancel)
@@ -391,7 +397,7 @@ func main() {
 	r := rep.Open()
 	defer r.Close()
 	prop := *propFlag
-	n := r.N(160, 3000)
+	n := r.N(300, 8000)
 	r.Rule = "schedules of environment actions for ServeConn over a scripted conn and a gate handler, generated online from the seed (profile " + prop + "): requests of 12 kinds with unique bodies on fresh, outstanding (duplicate) and just-flushed tags, Tflush of running / finished / unknown tags, handler returns in any order with message / MessageRerror / plain-error results (also after cancellation), gated conn.Write released ok or failed, read error / peer close / context cancel at a random step, pipelining depth 1..32, frames split at a random byte; two directed shapes (write failure while the loop is handing over a completion; flush + tag reuse + late return, 48 rounds). A case is non-trivial when it has >= 4 steps; distinct by canonical case text. Executed in a child process; quiescence between steps is detected from goroutine states (no timing)."
 	totals := map[string]int{}
 	crashes, hangs := 0, 0
@@ -491,6 +497,9 @@ func runChild(r *rep.Report, prop string, from, n int, totals map[string]int) (i
 		se := stderr.String()
 		if strings.Contains(se, "panic:") {
 			key = "c11.process-crash:panic"
+		}
+		if strings.Contains(se, "DATA RACE") {
+			key = "serve.data-race"
 		}
 		r.Fail(key, "the server process died while running the schedule: "+err.Error(), sx.Sym(fmt.Sprintf("(case-index %d)", cur)),
 			map[string]interface{}{"case_index": cur, "stderr": se})
